@@ -28,7 +28,7 @@ def check(tier, seed, t0):
         for m in o["mismatches"]:
             v.mismatch("C06 %s" % m["src"], {"case": c, "mismatch": m})
     reserved = sum(1 for c in cases if c["reserved"])
-    n = 6000 if thorough else 600
+    n = 60000 if thorough else 600
     tpath = os.path.join(vlib.BUILD, "c06_trace.ndjson")
     vlib.harness(["record", "c06", tpath, "--seed", str(seed), "--n", str(n), "--cli", vlib.CLI], timeout=3000)
     events = vlib.read_ndjson(tpath)
